@@ -434,21 +434,24 @@ func (tr *TargetResult) finish(v *Verifier, ex *Exec, nReqFacts int) {
 		name string
 		dead bool
 	}
+	// scripts are generated before anything runs concurrently (the term store is not safe for
+	// concurrent creation and traversal)
 	ch := make(chan cres, len(ex.covers))
 	for _, c := range ex.covers {
-		go func(c *Cover) {
-			asserts := append(append([]*Term(nil), ex.facts[:c.NFacts]...), c.PC)
-			script := ex.ts.SMTScriptLocked(&ex.smtMu, asserts, nil)
+		asserts := append(append([]*Term(nil), ex.facts[:c.NFacts]...), c.PC)
+		script := ex.ts.SMTScriptLocked(&ex.smtMu, asserts, nil)
+		go func(c *Cover, script string) {
 			sr := Solve(script, guardT, nil)
 			ch <- cres{c.Name, sr.Status == "unsat"}
-		}(c)
+		}(c, script)
 	}
 	// canary: "false" must not be provable from the collected facts
 	canary := make(chan *SolverResult, 1)
 	all := append([]*Term(nil), ex.facts...)
 	if len(all) > 0 {
+		script := ex.ts.SMTScriptLocked(&ex.smtMu, all, nil)
 		go func() {
-			canary <- Solve(ex.ts.SMTScriptLocked(&ex.smtMu, all, nil), guardT, nil)
+			canary <- Solve(script, guardT, nil)
 		}()
 	}
 	tr.Results = ex.Discharge(v.Timeout, v.Keep)
